@@ -21,7 +21,7 @@ def module():
 I64MIN, I64MAX = -(1 << 63), (1 << 63) - 1
 ORD_LO = cal.sec(I64MIN, 1, 1, 0, 0, 0)        # ordinal of civil_second::min()
 ORD_HI = cal.sec(I64MAX, 12, 31, 23, 59, 59)   # ordinal of civil_second::max()
-TLIM = 1 << 61
+TLIM = 1 << 59     # TimeZoneInfo::Load rejects recorded transition times outside [-2^59, 2^59] (fix e7109df)
 REST = 257                                     # bytes m=1, d=1, hh=mm=ss=0, padding 0 as one little-endian i64
 
 def fn(pat): return build.find_func(module(), pat)
@@ -143,9 +143,8 @@ def build_zone(ex, st, N, T, pfx="z", hints=True):
         X(32, 8, sub(add(u, off_of(prev_ty)), 1)); X(40, 8, REST)            # prev_civil_sec
         prev_ty = ty
     # WF: what TimeZoneInfo::Load guarantees (asserted there by the C12 harness)
-    # zic-shaped premise: recorded transition times lie within +-2^61 of the epoch (zic emits -2^59 .. 2^37).  Files with
-    # times outside that range are C12's business: Load accepts them and the "nearby transition" differences in
-    # LocalTime/MakeTime can then overflow (C12 continues into the queries on the loaded state to show exactly that)
+    # recorded transition times lie within +-2^59 of the epoch: established by TimeZoneInfo::Load (asserted by the C12
+    # harness as part of WF); without it the "nearby transition" differences in LocalTime/MakeTime can overflow
     wf = [lt(z.unix[0], 0), ge(z.unix[N - 1], 0)] + [and_(le(-TLIM, u), le(u, TLIM)) for u in z.unix]
     for i in range(1, N):
         wf.append(lt(z.unix[i - 1], z.unix[i]))
